@@ -110,6 +110,24 @@ class Violation(Exception):
                 "message": self.message, "seq": self.seq}
 
 
+def strip_traceback(e):
+    """
+    Drop the traceback (and those of chained exceptions) from a caught exception that the harness keeps.
+
+    Not cosmetic: pickle's framer hands the file a memoryview of an io.BytesIO; when an injected I/O
+    error is raised inside that write, the traceback keeps the memoryview alive in a reference cycle and
+    CPython 3.12 crashes (segmentation fault in the garbage collector, "BufferError: Existing exports of
+    data") when the cycle is broken.  Without the traceback the frames die by reference counting, in order.
+    """
+    seen = set()
+    while e is not None and id(e) not in seen:
+        seen.add(id(e))
+        e.__traceback__ = None
+        nxt = e.__cause__ or e.__context__
+        e = nxt
+    return None
+
+
 class HarnessError(Exception):
     """The harness itself is wrong (model bug, impossible state). Never reported as a violation."""
 
